@@ -287,9 +287,13 @@ def _cmp_realized(ctx, prefix, rv, rvol, spot, dt, eps):
 
 # ------------------------------------------------------------------------------------ B: option classes
 def _register(deriv, specs):
+    made = {}
     for i, s in enumerate(specs):
+        key = repr(sorted(s.items()))
+        if key not in made:  # the same clause object may be registered under several names (e.g. a fee charged twice)
+            made[key] = O.make_clause(s)
         # names whose alphabetical order is not the registration order (the contract is registration order)
-        deriv.add_clause("%s%d_%s" % ("mazcxbyd"[i % 8], i, s["kind"]), O.make_clause(s))
+        deriv.add_clause("%s%d_%s" % ("mazcxbyd"[i % 8], i, s["kind"]), made[key])
 
 
 def _check_clauses(ctx, label, deriv, specs, base_vals, spot, eps):
